@@ -104,7 +104,7 @@ class ChildEval:
         return None
 
 
-def children_covered(mod: Mod, fn: ast.FunctionDef, param: str, is_collector, helpers: dict) -> tuple[set, list[str]]:
+def children_covered(mod: Mod, fn: ast.FunctionDef, param: str, is_collector, helpers: dict, _depth: int = 0) -> tuple[set, list[str]]:
     """Children of `param` that are passed, themselves, to a recursive collector call on every path. Returns (covered, notes)."""
     ce = ChildEval(fn, param)
     covered: set = set()
@@ -136,6 +136,14 @@ def children_covered(mod: Mod, fn: ast.FunctionDef, param: str, is_collector, he
             st = stmt_of(fn, c)
             if st is not None and conditions_for(fn, st) == []:
                 covered |= ALL
+        elif d and d not in helpers and isinstance(c.func, ast.Name) and len(c.args) == 1 and isinstance(c.args[0], ast.Name) and c.args[0].id == param and _depth < 2:
+            # any other module-level helper handed the node itself: covered when the helper covers all children
+            h = next((s for s in mod.tree.body if isinstance(s, ast.FunctionDef) and s.name == d), None)
+            if h is not None and h is not fn and h.args.args and not is_collector(c):
+                hc, _ = children_covered(mod, h, h.args.args[0].arg, is_collector, helpers, _depth + 1)
+                st = stmt_of(fn, c)
+                if ALL <= hc and st is not None and conditions_for(fn, st, skip_raise_guards=True) == []:
+                    covered |= ALL
     return covered, notes
 
 
@@ -205,8 +213,10 @@ def ops_in_slice(cfg: CFG, n, expr: ast.AST) -> set:
         for x in ast.walk(e):
             if isinstance(x, ast.BinOp):
                 ops.add(type(x.op).__name__)
-            elif isinstance(x, ast.Call) and dotted(x.func) == "sum":
+            elif isinstance(x, ast.Call) and dotted(x.func) in ("sum", "Add", "SymAdd"):
                 ops.add("Add")
+            elif isinstance(x, ast.Call) and dotted(x.func) in ("Mul", "SymMul"):
+                ops.add("Mult")
     for dn in sl.def_nodes:
         if isinstance(dn.ast, ast.AugAssign):
             ops.add(type(dn.ast.op).__name__)
@@ -339,3 +349,134 @@ def homomorphism(run: Run, mod: Mod, cls: str, fn: ast.FunctionDef, expect_f: se
         if not od <= expect_d or (expect_d and not od):
             run.violate("S6", f"{mod.name}:{fn.name}:dimension", mod, r.ast,
                         f"the {cls} handler combines the children's dimensions with {sorted(od) or 'no operator'}; expected {sorted(expect_d) or 'none (common dimension kept)'}")
+
+
+# ------------------------------------------------------------------------------------------ sum-like discipline (S3)
+
+
+def _contains_call(e: ast.AST, name: str) -> list[ast.Call]:
+    return [c for c in ast.walk(e) if isinstance(c, ast.Call) and (dotted(c.func) or "").split(".")[-1] == name.split(".")[-1] and (dotted(c.func) or "") .endswith(name)]
+
+
+def _scopes(mod: Mod, fn: ast.FunctionDef, entry: str) -> list[ast.FunctionDef]:
+    out = [fn] + [x for x in ast.walk(fn) if isinstance(x, ast.FunctionDef) and x is not fn]
+    helpers = {s.name: s for s in mod.tree.body if isinstance(s, ast.FunctionDef)}
+    for c in ast.walk(fn):
+        if isinstance(c, ast.Call) and isinstance(c.func, ast.Name) and c.func.id in helpers and c.func.id != entry and helpers[c.func.id] not in out \
+                and c.func.id != "_elementwise_wrapper":
+            out.append(helpers[c.func.id])
+    return out
+
+
+def _enclosing_loop(scope: ast.FunctionDef, node: ast.AST):
+    best = None
+    for lp in [x for x in ast.walk(scope) if isinstance(x, (ast.For, ast.While))]:
+        if any(y is node for s in lp.body for y in ast.walk(s)):
+            if best is None or any(y is lp for s in best.body for y in ast.walk(s)):
+                best = lp
+    return best
+
+
+def _names(e: ast.AST) -> set:
+    return {x.id for x in ast.walk(e) if isinstance(x, ast.Name)}
+
+
+def _per_term(scope: ast.FunctionDef, loop, arg: ast.AST, elementwise_inner: bool) -> tuple[bool, str]:
+    """Is `arg` (the operand of is_any_dimension) the value of the *current term*, as opposed to an accumulated value?"""
+    names = _names(arg)
+    if loop is None:
+        params = [a.arg for a in scope.args.args]
+        if elementwise_inner and len(params) == 3:
+            acc = set(params[:2]) & names
+            if acc:
+                return False, f"`{norm(arg, 40)}` is the running value `{sorted(acc)[0]}` of the fold, not a term"
+        return True, ""
+    targets = {x.id for x in ast.walk(loop.target) if isinstance(x, ast.Name)}
+    inside = {}
+    for s in loop.body:
+        for x in ast.walk(s):
+            if isinstance(x, (ast.Assign, ast.AugAssign, ast.AnnAssign)):
+                tg = x.targets if isinstance(x, ast.Assign) else [x.target]
+                for t in tg:
+                    for nme in _names(t):
+                        inside.setdefault(nme, []).append(x)
+    outside = set()
+    for x in ast.walk(scope):
+        if isinstance(x, (ast.Assign, ast.AnnAssign, ast.AugAssign)) and not any(y is x for s in loop.body for y in ast.walk(s)):
+            tg = x.targets if isinstance(x, ast.Assign) else [x.target]
+            for t in tg:
+                outside |= _names(t)
+    for nme in names:
+        if nme in targets:
+            continue
+        if nme in inside:
+            carried = nme in outside or any(isinstance(a, ast.AugAssign) or nme in _names(getattr(a, "value", a)) for a in inside[nme])
+            if carried:
+                return False, f"`{nme}` is accumulated across the terms (carried from one iteration to the next), it is not the current term"
+            continue
+        if nme in outside or nme in [a.arg for a in scope.args.args]:
+            return False, f"`{nme}` is not a value of the current term"
+    return True, ""
+
+
+def sum_like_discipline(run: Run, mod: Mod, fn: ast.FunctionDef, label: str, entry: str) -> None:
+    """S3 for one sum-like handler: (a) inequivalent dimensions are refused; (b) the any-dimension escape is decided on the current
+    term's own value - never on a running sum/extremum - and (c) it precedes both the refusal and every adoption of a term's
+    dimension as the common one."""
+    decorated = any(dotted(d) == "_elementwise_wrapper" for d in fn.decorator_list)
+    refusals = []
+    for sc in _scopes(mod, fn, entry):
+        inner = decorated and sc is fn or any(isinstance(c, ast.Call) and isinstance(c.func, ast.Call) and dotted(c.func.func) == "_elementwise_wrapper"
+                                              and isinstance(c.func.args[0], ast.Name) and c.func.args[0].id == sc.name for c in ast.walk(fn))
+        for r in [x for x in ast.walk(sc) if isinstance(x, ast.Raise)]:
+            own = next((s for s in _scopes(mod, fn, entry) if s is not sc and any(y is r for y in ast.walk(s)) and any(y is s for y in ast.walk(sc))), None)
+            if own is not None:
+                continue  # belongs to a nested scope handled on its own
+            loop = _enclosing_loop(sc, r)
+            conds = conditions_for(sc, r, stop=loop) or []
+            eq = [(t, p) for t, p in conds if not isinstance(t, str) and _contains_call(t, "equivalent_dims")]
+            if eq:
+                refusals.append((sc, r, loop, conds, eq[0][0], inner))
+    run.ob("S3", f"{mod.name}:{label}:equivalence")
+    if not refusals:
+        run.violate("S3", f"{mod.name}:{label}:equivalence", mod, fn, f"the {label} handler no longer refuses operands whose dimensions fail dimsys_SI.equivalent_dims")
+        return
+    for sc, r, loop, conds, eqtest, inner in refusals:
+        where = f"{label}@{sc.name}" + (f":{norm(loop.iter, 20)}" if loop is not None else "")
+        run.ob("S3", f"{mod.name}:{where}:escape")
+        escapes = [(c.args[0], p) for t, p in conds if not isinstance(t, str) for c in _contains_call(t, "is_any_dimension") if c.args and p is False]
+        eqcall = _contains_call(eqtest, "equivalent_dims")[0]
+        common = eqcall.args[0].id if eqcall.args and isinstance(eqcall.args[0], ast.Name) else None
+        good = []
+        bad_reason = ""
+        for a, _ in escapes:
+            ok, why = _per_term(sc, loop, a, inner)
+            if ok:
+                good.append(a)
+            else:
+                bad_reason = why
+        # escapes that are not guards in front of the refusal: any other is_any_dimension use in this scope
+        others = [c for c in ast.walk(sc) if isinstance(c, ast.Call) and dotted(c.func) == "is_any_dimension" and c.args and not any(c.args[0] is a for a, _ in escapes)]
+        for c in others:
+            lp2 = _enclosing_loop(sc, c)
+            if lp2 is not loop:
+                continue
+            ok, why = _per_term(sc, loop, c.args[0], inner)
+            if not ok:
+                run.violate("S3", f"{mod.name}:{where}:accumulator-escape", mod, c,
+                            f"in the {label} handler the any-dimension escape is decided on {why}: terms that cancel (2 m - 2 m + 3 kg) or are absorbed "
+                            f"(Min(0, 2 kg, 3 m)) let inequivalent dimensions through")
+        if not good:
+            run.violate("S3", f"{mod.name}:{where}:escape", mod, r,
+                        f"in the {label} handler a term is compared with the common dimension without first being excused when it is 0, oo or nan"
+                        + (f" ({bad_reason})" if bad_reason else ""))
+            continue
+        # adoption of a term's dimension as the common dimension must be behind the same escape
+        if common and loop is not None:
+            for a in [x for s in loop.body for x in ast.walk(s) if isinstance(x, ast.Assign) and any(isinstance(t, ast.Name) and t.id == common for t in x.targets)]:
+                run.ob("S3", f"{mod.name}:{where}:adoption")
+                ac = conditions_for(sc, a, stop=loop) or []
+                if not any(not isinstance(t, str) and _contains_call(t, "is_any_dimension") and p is False for t, p in ac):
+                    run.violate("S3", f"{mod.name}:{where}:adoption-before-escape", mod, a,
+                                f"in the {label} handler `{norm(a, 40)}` adopts a term's dimension as the common one before asking whether that term is 0, oo or nan: "
+                                f"a zero term then decides the dimension and the verdict depends on the order of the terms")
